@@ -1,6 +1,7 @@
 use crate::Args;
 
 pub mod c05;
+pub mod c10;
 pub mod c14;
 pub mod c16;
 pub mod c15;
@@ -8,6 +9,7 @@ pub mod c15;
 pub fn run(args: &Args) -> i32 {
     match args.prop.as_str() {
         "C05" => c05::run(args),
+        "C10" => c10::run(args),
         "C14" => c14::run(args),
         "smoke" => smoke::run(args),
         "C16" => c16::run(args),
